@@ -76,7 +76,9 @@ def oracle(ctx, sc, o):
             if (cfg['skipn'] and cnt == cfg['skipn']) or (spec.get('maxt') and cnt == spec['maxt']):
                 cut = True
         # give-up: a pass none of whose candidates succeeded: one round per non-empty file
-        if p['worked'] == 0 and not cfg['nogiveup'] and p['code'] == 0:
+        # (the theorem's hypothesis: no candidate's test exits 0 and none hangs - a success that is too large for
+        #  --max-improvement, or unchanged, is ignored without counting towards give-up)
+        if p['worked'] == 0 and not cfg['nogiveup'] and p['code'] == 0 and all(rc not in (0, 124) for rc in p['test_codes']):
             nfiles = sum(1 for c in disk_prev if len(c) > 0)
             bound = nfiles * (cfg['giveup'] + cfg['N'] + 1)
             if p['executed'] > bound:
